@@ -272,7 +272,9 @@ func appendTokensForValue(val cty.Value, toks Tokens) Tokens {
 		i := 0
 		for it := val.ElementIterator(); it.Next(); {
 			eKey, eVal := it.Element()
-			if hclsyntax.ValidIdentifier(eKey.AsString()) {
+			// A bare "for" directly after the opening brace would be read back
+			// as the introducer of a for expression, so that one key is quoted.
+			if hclsyntax.ValidIdentifier(eKey.AsString()) && !(i == 0 && eKey.AsString() == "for") {
 				toks = append(toks, &Token{
 					Type:  hclsyntax.TokenIdent,
 					Bytes: []byte(eKey.AsString()),
